@@ -916,6 +916,44 @@ theorem expandToInclude_misses :
     Halfspace.distanceToPoint, fieldChartArith, fieldArith, finVecOps, Finset.univ_unique, Finset.sum_singleton]
   norm_num
 
+/-! ### `psi` uses the tolerance of the call, not of the chart's creation -/
+
+section psi
+variable {σ' S' U' B' D' : Type}
+
+/-- [AF] **a successful `psi` is within the tolerance passed at THAT call**: `psiChart` returns `true`
+only if the test `‖b‖² < tolSq` — with the `tolSq` handed to this very call, i.e. the constraint's
+current `getTolerance()²` — passed on a residual the oracle returned for the state it hands back. -/
+theorem psi_success_within_current_tolerance (A : Arith D') (nsq : B' → D') (O : PsiOracle σ' S' U' B')
+    (tolSq : D') (maxIter : Nat) (s : σ') (u : U') (x : S') (s' : σ')
+    (h : psiChart A nsq O tolSq maxIter s u = (true, x, s')) :
+    ∃ b, (∃ s₀, (O.resid s₀ x).1 = b) ∧ A.lt (nsq b) tolSq = true :=
+  psiLoop_true A nsq O tolSq maxIter _ _ _ x s' ⟨_, rfl⟩ h
+
+/-- [AF] … hence the constraint part `f(x)` of that residual is within the current tolerance too,
+whenever dropping the tangential components cannot increase a squared norm past a bound it was below
+(`hhead`; true of sums of squares in any ordered field and of IEEE doubles). -/
+theorem psi_success_constraint_within_current_tolerance (A : Arith D') (nsq headNsq : B' → D')
+    (O : PsiOracle σ' S' U' B') (hhead : ∀ b t, A.lt (nsq b) t = true → A.lt (headNsq b) t = true)
+    (tolSq : D') (maxIter : Nat) (s : σ') (u : U') (x : S') (s' : σ')
+    (h : psiChart A nsq O tolSq maxIter s u = (true, x, s')) :
+    ∃ b, (∃ s₀, (O.resid s₀ x).1 = b) ∧ A.lt (headNsq b) tolSq = true := by
+  obtain ⟨b, hb, hlt⟩ := psi_success_within_current_tolerance A nsq O tolSq maxIter s u x s' h
+  exact ⟨b, hb, hhead b tolSq hlt⟩
+
+/-- kernel-checked witness about a chart that *caches* the tolerance at construction (seeded change
+C16-s4, not the code): created under tolerance² = 100, called after the tolerance was tightened to
+tolerance² = 1, on a point whose residual² is 50 — the cached chart reports success although the
+residual is above the tolerance in force; the code as it is reports failure. -/
+theorem psi_cached_tolerance_is_stale :
+    let O : PsiOracle Unit Nat Nat Nat := ⟨fun _ u => (u, ()), fun _ _ => (50, ()), fun _ x _ => (x, ())⟩
+    (psiChartCached natArith id O 100 50 1 50 () 0).1 = true ∧ (psiChart natArith id O 1 50 () 0).1 = false := by
+  constructor
+  · simp [psiChartCached, psiChart, psiLoop, natArith]
+  · simp [psiChart, psiLoop, natArith]
+
+end psi
+
 /-! ## Non-vacuity: a traversal that stores three further states and succeeds (it keeps going at
 `dist = delta`: the loop condition is `dist >= tolerance`) -/
 
